@@ -1,1 +1,227 @@
-/-! C26 — property theorems (stub: nothing proved yet). -/
+import B6.Model.Service
+import B6.Spec.ChangeSpec
+import B6.Lemmas.Service
+/-!
+# C26 — Callers are told whether their change was applied
+
+About `B6.Model.Service` (the change branch of `service.Evaluate` and of `Evaluator.EvaluateExpression`,
+with `Change.Apply` for `AddFeatures`/`AddTags`/`RemoveTags`/`MergedChange` as written) against
+`B6.Spec.ChangeSpec` (`specApply` = the world a successful application produces, `none` = not applicable;
+`targets` = the IDs the change names).  All theorems are for every world and every change, of any nesting
+depth of `MergedChange`.
+-/
+namespace B6.Props.C26
+open B6.Model.Service B6.Spec.ChangeSpec B6.Lemmas.Service
+
+/-- What `Apply` does, against the reference: it fails exactly when the change is not applicable; when it
+succeeds the world is the reference world and the returned IDs are, as a set, the IDs the change names. -/
+def ApplyMeets (w : World) (c : Change) : Prop :=
+  match specApply w c with
+  | some w' => (apply w c).ok = true ∧ (apply w c).world = w' ∧ SameIds (apply w c).ids (targets c)
+  | none => (apply w c).ok = false
+
+mutual
+theorem apply_meets (w : World) : (c : Change) → ApplyMeets w c
+  | .addFeatures fs => by
+    unfold ApplyMeets
+    have h := addFeatures_loop fs w []
+    simp only [specApply, apply, targets]
+    cases hs : addFeaturesSpec w fs with
+    | none => simp [hs] at h ⊢; exact h
+    | some w' =>
+      simp [hs] at h ⊢
+      refine ⟨h.1, h.2.1, ?_⟩
+      intro id; rw [h.2.2 id]; simp
+  | .addTags ts => by
+    unfold ApplyMeets
+    have h := addTags_loop ts w []
+    simp only [specApply, apply, targets]
+    cases hs : addTagsSpec w ts with
+    | none => simp [hs] at h ⊢; exact h
+    | some w' =>
+      simp [hs] at h ⊢
+      refine ⟨h.1, h.2.1, ?_⟩
+      intro id; rw [h.2.2]
+  | .removeTags ts => by
+    unfold ApplyMeets
+    have h := removeTags_loop ts w []
+    simp only [specApply, apply, targets]
+    cases hs : removeTagsSpec w ts with
+    | none => simp [hs] at h ⊢; exact h
+    | some w' =>
+      simp [hs] at h ⊢
+      refine ⟨h.1, h.2.1, ?_⟩
+      intro id; rw [h.2.2]
+  | .merged cs => by
+    unfold ApplyMeets
+    have hc := canary_meets w cs
+    have hp := pass_meets w cs []
+    simp only [specApply, apply, targets]
+    cases hs : specApplyAll w cs with
+    | none => simp [hs] at hc; simp [hc]
+    | some w' =>
+      simp [hs] at hc hp
+      simp [hc]
+      refine ⟨hp.1, hp.2.1, ?_⟩
+      intro id; rw [hp.2.2 id]
+/-- the canary loop passes exactly when the whole sequence is applicable -/
+theorem canary_meets (w : World) : (cs : Changes) → canaryOk w cs = (specApplyAll w cs).isSome
+  | .nil => by simp [canaryOk, specApplyAll]
+  | .cons c cs => by
+    have h := apply_meets w c
+    unfold ApplyMeets at h
+    unfold canaryOk specApplyAll
+    cases hs : specApply w c with
+    | none => simp [hs] at h; simp [h]
+    | some w1 =>
+      simp [hs] at h
+      simp [h.1, h.2.1]
+      exact canary_meets w1 cs
+theorem pass_meets (w : World) : (cs : Changes) → (acc : List FId) →
+    match specApplyAll w cs with
+    | some w' => (mergedPass w cs acc).ok = true ∧ (mergedPass w cs acc).world = w' ∧
+        (∀ id, id ∈ (mergedPass w cs acc).ids ↔ id ∈ acc ∨ id ∈ targetsAll cs)
+    | none => (mergedPass w cs acc).ok = false
+  | .nil, acc => by simp [specApplyAll, mergedPass, targetsAll]
+  | .cons c cs, acc => by
+    have h := apply_meets w c
+    unfold ApplyMeets at h
+    unfold specApplyAll mergedPass
+    cases hs : specApply w c with
+    | none => simp [hs] at h; simp [h]
+    | some w1 =>
+      simp [hs] at h
+      simp only [h.1, ↓reduceIte, h.2.1]
+      have ih := pass_meets w1 cs (acc ++ (apply w c).ids)
+      cases hs2 : specApplyAll w1 cs with
+      | none => simp [hs2] at ih ⊢; exact ih
+      | some w2 =>
+        simp [hs2] at ih ⊢
+        refine ⟨ih.1, ih.2.1, ?_⟩
+        intro id
+        rw [ih.2.2 id, targetsAll, h.2.2 id]
+        simp [or_assoc]
+end
+
+mutual
+/-- Frame and existence for the reference: a feature the change does not name is what it was; a feature it
+names exists afterwards.  (This is what makes `targets` "the features the change modified".) -/
+theorem spec_frame (w w' : World) : (c : Change) → specApply w c = some w' →
+    (∀ id, id ∉ targets c → find w' id = find w id) ∧
+    (∀ id, (find w id).isSome ∨ id ∈ targets c → (find w' id).isSome)
+  | .addFeatures fs => by intro h; simp only [specApply] at h; simpa [targets] using addFeaturesSpec_frame fs w w' h
+  | .addTags ts => by intro h; simp only [specApply] at h; simpa [targets] using addTagsSpec_frame ts w w' h
+  | .removeTags ts => by intro h; simp only [specApply] at h; simpa [targets] using removeTagsSpec_frame ts w w' h
+  | .merged cs => by intro h; simp only [specApply] at h; simpa [targets] using spec_frame_all w w' cs h
+theorem spec_frame_all (w w' : World) : (cs : Changes) → specApplyAll w cs = some w' →
+    (∀ id, id ∉ targetsAll cs → find w' id = find w id) ∧
+    (∀ id, (find w id).isSome ∨ id ∈ targetsAll cs → (find w' id).isSome)
+  | .nil => by intro h; simp [specApplyAll] at h; subst h; simp [targetsAll]
+  | .cons c cs => by
+    intro h
+    unfold specApplyAll at h
+    cases hs : specApply w c with
+    | none => simp [hs] at h
+    | some w1 =>
+      simp [hs] at h
+      obtain ⟨f1, e1⟩ := spec_frame w w1 c hs
+      obtain ⟨f2, e2⟩ := spec_frame_all w1 w' cs h
+      constructor
+      · intro id hid
+        simp [targetsAll] at hid
+        rw [f2 id hid.2, f1 id hid.1]
+      · intro id hid
+        simp only [targetsAll, List.mem_append] at hid
+        apply e2
+        rcases hid with hid | hid | hid
+        · left; exact e1 id (Or.inl hid)
+        · left; exact e1 id (Or.inr hid)
+        · right; exact hid
+end
+
+/-- The statement of C26 for one evaluator `ev` (a function from the world and the evaluated change to the
+world afterwards and the response):
+* the response is an error **iff** applying the change failed (the change is not applicable to the world);
+* on success the response carries IDs that are, as a set, the features the change names, the world is the
+  reference world, every feature outside the returned IDs is untouched and every returned ID exists. -/
+def ReportsIff (ev : World → Change → World × Resp) : Prop :=
+  ∀ (w : World) (c : Change),
+    ((ev w c).2 = Resp.error ↔ specApply w c = none) ∧
+    (∀ w', specApply w c = some w' →
+      ∃ ids, ev w c = (w', Resp.ids ids) ∧ SameIds ids (targets c) ∧
+        (∀ id, id ∉ ids → find w' id = find w id) ∧ (∀ id, id ∈ ids → (find w' id).isSome))
+
+theorem reports_of_meets (ev : World → Change → World × Resp)
+    (hev : ∀ w c, ev w c = if (apply w c).ok then ((apply w c).world, Resp.ids (apply w c).ids)
+                           else ((apply w c).world, Resp.error)) : ReportsIff ev := by
+  intro w c
+  have h := apply_meets w c
+  unfold ApplyMeets at h
+  rw [hev w c]
+  cases hs : specApply w c with
+  | none => simp [hs] at h; simp [h]
+  | some w1 =>
+    simp [hs] at h
+    simp only [h.1, ↓reduceIte]
+    refine ⟨by simp, ?_⟩
+    intro w' hw'
+    simp at hw'; subst hw'
+    obtain ⟨fr, ex⟩ := spec_frame w w1 c hs
+    refine ⟨(apply w c).ids, by rw [h.2.1], h.2.2, ?_, ?_⟩
+    · intro id hid
+      exact fr id (fun hm => hid ((h.2.2 id).2 hm))
+    · intro id hid
+      exact ex id (Or.inr ((h.2.2 id).1 hid))
+
+/-- gRPC `service.Evaluate` (compatible client version, expression evaluated to the change `c`). -/
+theorem grpc_reports_iff : ReportsIff (fun w c => grpcEvaluate true w (.change c)) :=
+  reports_of_meets _ (by intro w c; simp [grpcEvaluate])
+
+/-- UI/api `Evaluator.EvaluateExpression` (after the repair). -/
+theorem ui_reports_iff : ReportsIff (fun w c => uiEvaluate w (.change c)) :=
+  reports_of_meets _ (by intro w c; simp [uiEvaluate])
+
+/-- Outside the change branch both evaluators leave the world alone: incompatible version, evaluation error,
+non-change value. -/
+theorem no_change_no_write (w : World) (v : Bool) :
+    (grpcEvaluate false w (.error)).1 = w ∧ (∀ e, (grpcEvaluate false w e) = (w, Resp.error)) ∧
+    (grpcEvaluate v w .error).1 = w ∧ (grpcEvaluate v w .plain).1 = w ∧
+    (uiEvaluate w .error) = (w, Resp.error) ∧ (uiEvaluate w .plain) = (w, Resp.plain) := by
+  cases v <;> simp [grpcEvaluate, uiEvaluate]
+
+/-- A failed `MergedChange` is reported as an error and leaves the world as it was (the canary). -/
+theorem merged_error_world_unchanged (w : World) (cs : Changes) (h : specApply w (.merged cs) = none) :
+    grpcEvaluate true w (.change (.merged cs)) = (w, Resp.error) ∧
+    uiEvaluate w (.change (.merged cs)) = (w, Resp.error) := by
+  have hc := canary_meets w cs
+  simp only [specApply] at h
+  simp [h] at hc
+  simp [grpcEvaluate, uiEvaluate, apply, hc]
+
+/-- The evaluator as it was before the repair swallowed the error: `add-tag` on a missing feature is not
+applicable, yet the caller got a (successful) `AppliedChange` with no IDs.  Kept as the record of the defect;
+the harness corpus replays this input against the real evaluator. -/
+theorem ui_swallowed_error_before_fix :
+    ¬ ReportsIff (fun w c => uiEvaluateBeforeFix w (.change c)) := by
+  intro h
+  have := (h [] (.addTags [(⟨.point, 1⟩, "a", "b")])).1
+  exact absurd (this.2 (by decide)) (by decide)
+
+/-! ### the hypotheses are satisfiable / the statements are not vacuous -/
+
+def p1 : Feature := ⟨⟨.point, 1⟩, [("a", "1")], []⟩
+def p2 : Feature := ⟨⟨.point, 2⟩, [], []⟩
+def way : Feature := ⟨⟨.path, 7⟩, [("#highway", "path")], [⟨.point, 1⟩, ⟨.point, 2⟩]⟩
+def good : Change := .merged (.cons (.addFeatures [p2, way]) (.cons (.addTags [(⟨.point, 1⟩, "b", "2")]) .nil))
+def bad : Change := .merged (.cons (.addTags [(⟨.point, 1⟩, "b", "2")]) (.cons (.addFeatures [way]) .nil))
+
+example : (grpcEvaluate true [p1] (.change good)).2 = Resp.ids [⟨.point, 2⟩, ⟨.path, 7⟩, ⟨.point, 1⟩] := by decide
+example : (specApply [p1] good).isSome = true := by decide
+example : specApply [p1] bad = none ∧ grpcEvaluate true [p1] (.change bad) = ([p1], Resp.error) := by decide
+example : uiEvaluate [] (.change (.addTags [(⟨.point, 1⟩, "a", "b")])) = ([], Resp.error) := by decide
+example : (uiEvaluateBeforeFix [] (.change (.addTags [(⟨.point, 1⟩, "a", "b")]))).2 = Resp.ids [] := by decide
+-- a non-atomic failure: the first tag stays although the caller is (rightly) told the change failed
+example : grpcEvaluate true [p1] (.change (.addTags [(⟨.point, 1⟩, "b", "2"), (⟨.point, 9⟩, "b", "2")]))
+    = ([⟨⟨.point, 1⟩, [("a", "1"), ("b", "2")], []⟩], Resp.error) := by decide
+
+end B6.Props.C26
